@@ -64,6 +64,22 @@ def dataset(rng, d=None, n_classes=None, per_class=None, sep=2.0, bits=GRID_BITS
       return X, y
 
 
+def layout(rng, A):
+  """the same array in one of the memory layouts a user's array may have: C-ordered copy, Fortran-ordered, a transposed
+  view, a strided (non-contiguous) view"""
+  A = np.asarray(A)
+  k = int(rng.integers(4))
+  if k == 0 or A.ndim != 2:
+    return A.copy()
+  if k == 1:
+    return np.asfortranarray(A)
+  if k == 2:
+    return np.ascontiguousarray(A.T).T
+  big = np.zeros((2 * A.shape[0], 2 * A.shape[1]), dtype=A.dtype)
+  big[::2, ::2] = A
+  return big[::2, ::2]
+
+
 def documented_pairs(X, cons):
   """what the Constraints helper's output MEANS (written out here, not taken from the library's wrap_pairs): the pairs
   (X[a_i], X[b_i]) labelled +1 followed by the pairs (X[c_i], X[d_i]) labelled -1"""
